@@ -1,6 +1,6 @@
 ----------------------------- MODULE MC_SyncExp -----------------------------
 EXTENDS SyncExp, Json, SequencesExt
-CONSTANTS H, F, ForkAt, CpHs, MaxEnv, Emit, Scenario
+CONSTANTS H, F, ForkAt, CpHs, MaxEnv, MaxRaw, Emit, Scenario
 ParV == [b \in 1 .. (H + F) |-> IF b <= H THEN b - 1 ELSE IF b = H + 1 THEN ForkAt ELSE b - 1]
 CpsV == {h \in CpHs : h <= H}
 VARIABLES hist, nenv, ign     \* ign: an inv announcement was ignored earlier in this history (sticky: the engine then
@@ -9,12 +9,15 @@ mxvars == <<xvars, hist, nenv, ign>>
 NB == H + F
 StV == [k \in 1 .. (NB + 1) |-> IF (k - 1) \in DOMAIN rows' THEN rows'[k - 1].st ELSE "-"]
 Obs == [sent |-> xsent', tip |-> TipOf(rows'), st |-> StV, conn |-> conn', kind |-> "x"]
+NRaw == Cardinality({k \in 1 .. Len(hist) : "raw" \in DOMAIN hist[k]})
 MXInit == XInit /\ hist = <<>> /\ nenv = 0 /\ ign = FALSE
 LogEnv(rec) == hist' = Append(hist, rec @@ [kind |-> "env"] @@ Obs) /\ nenv' = nenv + 1
 MXEnv ==
   /\ xq = <<>> /\ nenv < MaxEnv
   /\ \/ \E b \in {0} \cup (1 .. NB) : Start(b) /\ LogEnv([op |-> "start", b |-> b]) /\ UNCHANGED ign
      \/ NodeReply /\ LogEnv([op |-> "reply", ids |-> ReplyIds(Head(rq))]) /\ UNCHANGED ign
+     \/ /\ NRaw < MaxRaw /\ rq # <<>> /\ ReplyIds([Head(rq) EXCEPT !.stop = -1]) # ReplyIds(Head(rq))
+        /\ NodeReplyRaw /\ LogEnv([op |-> "reply", ids |-> ReplyIds([Head(rq) EXCEPT !.stop = -1]), raw |-> TRUE]) /\ UNCHANGED ign
      \/ NodeClose /\ LogEnv([op |-> "close"]) /\ UNCHANGED ign
      \/ \E b \in 1 .. NB : Par[b] = nbest /\ NodeAnnounce(b) /\ LogEnv([op |-> "announce", b |-> b, how |-> IF gotSH THEN "headers" ELSE "inv"]) /\ UNCHANGED ign
 \* phase 2: the node keeps answering until nothing is asked
@@ -23,7 +26,7 @@ MXDrain == /\ xq = <<>> /\ nenv >= MaxEnv /\ conn /\ rq # <<>>
 MXStep == XStep /\ hist' = Append(hist, Obs) /\ UNCHANGED nenv /\ ign' = (ign \/ Head(xq).t = "inv")
 MXNext == MXStep \/ MXEnv \/ MXDrain
 MXSpec == MXInit /\ [][MXNext]_mxvars
-XView == <<xvars, ign, nenv>>
+XView == <<xvars, ign, nenv, NRaw>>
 Terminal == xq = <<>> /\ nenv >= MaxEnv /\ (~conn \/ rq = <<>>)
 StNow == [k \in 1 .. (NB + 1) |-> IF (k - 1) \in DOMAIN rows THEN rows[k - 1].st ELSE "-"]
 \* known limitation X1 of the experimental engine: inv announcements are ignored for ever (syncedCheckpoints is never set), so
@@ -31,7 +34,7 @@ StNow == [k \in 1 .. (NB + 1) |-> IF (k - 1) \in DOMAIN rows THEN rows[k - 1].st
 Conv == ~conn \/ nbest = 0 \/ (nbest \in Stored /\ rows[Tip].height >= HOf(nbest))
 Why == IF Conv THEN "" ELSE IF ign THEN "X1-inv-ignored" ELSE "unexplained"
 Final == [st |-> StNow, tip |-> Tip, bestoff |-> IF conn THEN nbest ELSE -1, best |-> IF conn /\ nbest # 0 THEN <<nbest>> ELSE <<>>, conv |-> Conv, why |-> Why]
-Scn == [par |-> [b \in 1 .. NB |-> ParV[b]], cps |-> SetToSeq(CpsV), forbid |-> SetToSeq(Forbid), cap |-> Cap, name |-> Scenario]
+Scn == [par |-> [b \in 1 .. NB |-> ParV[b]], cps |-> SetToSeq(CpsV), forbid |-> SetToSeq(Forbid), cap |-> Cap, name |-> Scenario, findings |-> SetToSeq(Findings)]
 EmitInv == (Emit = "paths" /\ Terminal) => PrintT(ToJson([hist |-> hist, scn |-> Scn, final |-> Final]))
 ConvergesOrListed == Terminal => (Why = "" \/ Why \in Findings)
 =============================================================================
